@@ -17,7 +17,7 @@ for pid in ids:
     checks.append({'property_id': pid,
                    'quick_cmd': './check %s --tier quick' % pid, 'thorough_cmd': './check %s --tier thorough' % pid,
                    'evidence_file': 'evidence/%s.json' % pid, 'replay_cmd_template': './check %s --replay {path}' % pid, 'engine': 'gvc',
-                   'level_claimed': {'category': sp['level'], 'text': sp['claim'], 'design_ref': sp.get('design_ref', 'DESIGN.md section 4, ' + pid)},
+                   'level_claimed': {'category': sp['level'], 'text': sp['claim'], 'design_ref': sp.get('design_ref', 'DESIGN.md section 0.3 (what was built and proved); section 4, ' + pid + ' (original plan)')},
                    'level_note': sp['note'], 'technique': sp['technique']})
 m = {'version': 1,
      'setup_cmd': 'true',
